@@ -3,6 +3,7 @@ package main
 // C06: UUID equality vs value equality, Triple.Equal, Graph.Exist; UUID total and stable.
 
 import (
+	"math/rand"
 	"bufio"
 	"encoding/hex"
 	"encoding/json"
@@ -230,6 +231,43 @@ func stableCase(sp *VSpec, src string) {
 
 // flushStable computes the UUIDs again in a child process and emits the US events.
 func flushStable() {
+	// every value again, now while seven other goroutines compute the UUIDs of OTHER values (each goroutine walks
+	// the values in its own order): a UUID that depends on a buffer shared between calls differs here
+	vals := make([]*Value, len(usItems))
+	for i, it := range usItems {
+		if v, err := build(it.spec); err == nil && !it.ev.Panic && len(it.ev.U) > 0 {
+			vals[i] = v
+		}
+	}
+	var mu sync.Mutex
+	var wg sync.WaitGroup
+	for g := 0; g < 8; g++ {
+		wg.Add(1)
+		go func(g int) {
+			defer wg.Done()
+			r := rand.New(rand.NewSource(int64(g) + 77))
+			for rep := 0; rep < 3; rep++ {
+				for _, i := range r.Perm(len(vals)) {
+					if vals[i] == nil {
+						continue
+					}
+					u, p, _, _ := uuidOf(vals[i])
+					if p {
+						u = "PANIC"
+					}
+					if u != usItems[i].ev.U[0] {
+						mu.Lock()
+						if len(usItems[i].ev.U) < 12 {
+							usItems[i].ev.U = append(usItems[i].ev.U, u)
+						}
+						mu.Unlock()
+						stat("US-differs-under-concurrency")
+					}
+				}
+			}
+		}(g)
+	}
+	wg.Wait()
 	exe, err := os.Executable()
 	must(err)
 	cmd := exec.Command(exe, "uuidchild")
